@@ -15,15 +15,15 @@ import (
 // ---- event log shared by the fakes ----
 
 const (
-	evState = iota + 1 // HandleShipHandshakeStateUpdate(state)
-	evSetup            // SetupRemoteDevice
-	evReportID         // ReportServiceShipID
-	evClosed           // HandleConnectionClosed(completed)
-	evWrite            // transport write accepted
-	evWriteErr         // transport write refused
-	evCloseData        // CloseDataConnection(code)
-	evDeliver          // HandleShipPayloadMessage
-	evGrant            // a trust oracle answered yes
+	evState     = iota + 1 // HandleShipHandshakeStateUpdate(state)
+	evSetup                // SetupRemoteDevice
+	evReportID             // ReportServiceShipID
+	evClosed               // HandleConnectionClosed(completed)
+	evWrite                // transport write accepted
+	evWriteErr             // transport write refused
+	evCloseData            // CloseDataConnection(code)
+	evDeliver              // HandleShipPayloadMessage
+	evGrant                // a trust oracle answered yes
 )
 
 type vEvent struct {
